@@ -60,9 +60,12 @@ var c02Tree = map[string]string{
 	// directory above both
 	// a repository whose configuration has several defects at once: which one the fatal error names
 	// must not depend on map order
-	"badcfg/.git/HEAD":                               "ref: refs/heads/main\n",
-	"badcfg/.github/actionlint.yaml":                 "paths:\n  '[a':\n    ignore: []\n  '[b':\n    ignore: []\n  '[c':\n    ignore: []\n",
-	"badcfg/.github/workflows/w.yml":                 "on: push\njobs:\n  a:\n    runs-on: ubuntu-latest\n    steps:\n      - run: echo\n",
+	"badcfg/.git/HEAD":               "ref: refs/heads/main\n",
+	"badcfg/.github/actionlint.yaml": "paths:\n  '[a':\n    ignore: []\n  '[b':\n    ignore: []\n  '[c':\n    ignore: []\n",
+	"badcfg/.github/workflows/w.yml": "on: push\njobs:\n  a:\n    runs-on: ubuntu-latest\n    steps:\n      - run: echo\n",
+	// jobs written in flow style on ONE line (their positions differ in the column only), sharing a broken local action
+	"p/.github/workflows/same-line-jobs.yml":         "on: push\njobs: {zjob: {runs-on: ubuntu-latest, steps: [{uses: ./.github/actions/broken}]}, ajob: {runs-on: ubuntu-latest, steps: [{uses: ./.github/actions/broken}, {uses: ./.github/actions/req}]}, mjob: {runs-on: nosuchlabel, steps: [{uses: ./.github/actions/req}]}}\n",
+	"p/.github/workflows/not-yaml.yml":               "on: push\njobs: [\n",
 	"q/.git/HEAD":                                    "ref: refs/heads/main\n",
 	"q/.github/actionlint.yaml":                      "self-hosted-runner:\n  labels:\n    - qqq\nconfig-variables:\n  - QVAR\n",
 	"q/.github/workflows/other.yml":                  "on: push\njobs:\n  a:\n    runs-on: qqq\n    steps:\n      - run: echo ${{ vars.QVAR }} ${{ vars.ZZZ }}\n  b:\n    runs-on: zzz\n    steps:\n      - run: echo\n",
@@ -72,7 +75,7 @@ var c02Tree = map[string]string{
 	"p/.github/actions/broken/action.yml":            "name: [broken\n",
 	"p/.github/actions/req/action.yml":               "name: req\ndescription: d\ninputs:\n  zeta:\n    required: true\n  alpha:\n    required: true\n  mid:\n    required: true\nruns:\n  using: node20\n  main: index.js\n",
 	"p/.github/actions/req/index.js":                 "",
-	"p/.github/workflows/callee.yml":                 "on:\n  workflow_call:\n    inputs:\n      zeta:\n        type: string\n        required: true\n      alpha:\n        type: string\n        required: true\n    secrets:\n      zs:\n        required: true\n      as:\n        required: true\njobs:\n  j:\n    runs-on: ubuntu-latest\n    steps:\n      - run: echo\n",
+	"p/.github/workflows/callee.yml":                 "on:\n  workflow_call:\n    inputs:\n      zeta:\n        type: string\n        required: true\n      alpha:\n        type: string\n        required: True\n    secrets:\n      zs:\n        required: TRUE\n      as:\n        required: true\njobs:\n  j:\n    runs-on: ubuntu-latest\n    steps:\n      - run: echo\n",
 	"p/.github/workflows/two-jobs-broken-action.yml": "on: push\njobs:\n  zjob:\n    runs-on: ubuntu-latest\n    steps:\n      - uses: ./.github/actions/broken\n  ajob:\n    runs-on: ubuntu-latest\n    steps:\n      - uses: ./.github/actions/broken\n  mjob:\n    uses: ./.github/workflows/missing.yml\n  njob:\n    uses: ./.github/workflows/missing.yml\n",
 	"p/.github/workflows/missing-required.yml":       "on: push\njobs:\n  a:\n    runs-on: ubuntu-latest\n    steps:\n      - uses: ./.github/actions/req\n      - run: echo ${{ vars.NOPE }}\n  c:\n    uses: ./.github/workflows/callee.yml\n  d:\n    uses: ./.github/workflows/callee.yml\n    with:\n      bogus1: 1\n      bogus2: 2\n    secrets:\n      bogus3: x\n      bogus4: y\n",
 	"p/.github/workflows/second.yml":                 "on: push\njobs:\n  a:\n    runs-on: ubuntu-latest\n    steps:\n      - uses: ./.github/actions/broken\n      - uses: ./.github/actions/req\n  c:\n    uses: ./.github/workflows/missing.yml\n",
@@ -179,7 +182,7 @@ func TestVerifC02(t *testing.T) {
 	for _, k := range vSortedKeys(c02Collision) {
 		inputs = append(inputs, &c02Input{Name: "collision/" + k, Src: c02Collision[k]})
 	}
-	for _, f := range []string{"two-jobs-broken-action.yml", "missing-required.yml"} {
+	for _, f := range []string{"two-jobs-broken-action.yml", "missing-required.yml", "same-line-jobs.yml"} {
 		inputs = append(inputs, &c02Input{Name: "collision/project/" + f, Path: filepath.Join(root, "p/.github/workflows", f)})
 	}
 	inputs = append(inputs, &c02Input{Name: "collision/project/config-with-three-invalid-globs", Path: filepath.Join(root, "badcfg/.github/workflows/w.yml")})
@@ -425,6 +428,7 @@ func TestVerifC02(t *testing.T) {
 		{"LintFiles(second,callee)", func(l *Linter) ([]*Error, error) {
 			return l.LintFiles([]string{p("second.yml"), p("callee.yml")}, nil)
 		}},
+		{"LintFile(not-yaml)", func(l *Linter) ([]*Error, error) { return l.LintFile(p("not-yaml.yml"), nil) }},
 	}
 	render := func(errs []*Error, err error, out string) string {
 		var b strings.Builder
@@ -436,53 +440,85 @@ func TestVerifC02(t *testing.T) {
 		}
 		return b.String() + "---\n" + out
 	}
-	fresh := map[string]string{}
-	for _, c := range calls {
-		var out bytes.Buffer
-		l, _ := NewLinter(&out, &LinterOptions{WorkingDir: root})
-		errs, err := c.run(l)
-		fresh[c.name] = render(errs, err, out.String())
-	}
-	var seqs [][]int
-	var gen func(prefix []int, d int)
-	gen = func(prefix []int, d int) {
-		if len(prefix) > 0 {
-			seqs = append(seqs, append([]int{}, prefix...))
+	// two option sets: default output, and a -format template that also lists the known rule kinds
+	histFormat := "{{range $e := .}}{{$e.Filepath}}:{{$e.Line}}:{{$e.Column}}:{{$e.Kind}}\n{{end}}kinds={{range $k := allKinds}}{{$k.Name}},{{end}}\n"
+	for _, withFormat := range []bool{false, true} {
+		hopts := func() *LinterOptions {
+			if withFormat {
+				return &LinterOptions{WorkingDir: root, Format: histFormat}
+			}
+			return &LinterOptions{WorkingDir: root}
 		}
-		if d == 0 {
-			return
+		fresh := map[string]string{}
+		for _, c := range calls {
+			var out bytes.Buffer
+			l, _ := NewLinter(&out, hopts())
+			errs, err := c.run(l)
+			fresh[c.name] = render(errs, err, out.String())
 		}
-		for i := range calls {
-			gen(append(prefix, i), d-1)
-		}
-	}
-	gen(nil, histDepth)
-	for si, seq := range seqs {
-		if !r.Mine(int64(si)) && !isReplay {
-			continue
-		}
-		var names []string
-		for _, k := range seq {
-			names = append(names, calls[k].name)
-		}
-		if isReplay && strings.Join(names, ";") != strings.Join(replay.History, ";") {
-			continue
-		}
-		var out bytes.Buffer
-		l, _ := NewLinter(&out, &LinterOptions{WorkingDir: root})
-		for step, k := range seq {
-			out.Reset()
-			errs, err := calls[k].run(l)
-			got := render(errs, err, out.String())
-			r.Evaluations++
-			r.Transitions++
-			r.Validated++
-			if got != fresh[calls[k].name] {
-				r.Violation("history:"+calls[k].name, fmt.Sprintf("call %d (%s) of history %v on a reused Linter differs from the same call on a fresh Linter: %s", step+1, calls[k].name, names, c02FirstDiff(fresh[calls[k].name], got)), map[string]any{"history": names})
+		var seqs [][]int
+		var gen func(prefix []int, d int)
+		gen = func(prefix []int, d int) {
+			if len(prefix) > 0 {
+				seqs = append(seqs, append([]int{}, prefix...))
+			}
+			if d == 0 {
+				return
+			}
+			for i := range calls {
+				gen(append(prefix, i), d-1)
 			}
 		}
-		r.Class(fmt.Sprintf("history len=%d", len(seq)), len(seq) > 1)
+		gen(nil, histDepth)
+		for si, seq := range seqs {
+			if !r.Mine(int64(si)) && !isReplay {
+				continue
+			}
+			var names []string
+			for _, k := range seq {
+				names = append(names, calls[k].name)
+			}
+			if isReplay && strings.Join(names, ";") != strings.Join(replay.History, ";") {
+				continue
+			}
+			var out bytes.Buffer
+			l, _ := NewLinter(&out, hopts())
+			for step, k := range seq {
+				out.Reset()
+				errs, err := calls[k].run(l)
+				got := render(errs, err, out.String())
+				r.Evaluations++
+				r.Transitions++
+				r.Validated++
+				if got != fresh[calls[k].name] {
+					hkey := "history:" + calls[k].name
+					if withFormat {
+						hkey = "history-with-format:" + c02HistClass(fresh[calls[k].name], got)
+					}
+					r.Violation(hkey, fmt.Sprintf("call %d (%s) of history %v on a reused Linter differs from the same call on a fresh Linter: %s", step+1, calls[k].name, names, c02FirstDiff(fresh[calls[k].name], got)), map[string]any{"history": names})
+				}
+			}
+			r.Class(fmt.Sprintf("history len=%d format=%v", len(seq), withFormat), len(seq) > 1)
+		}
 	}
+}
+
+// c02HistClass: "kinds-list-only" when the two renderings differ in nothing but the line that
+// lists the rule kinds known to the formatter, else "other".
+func c02HistClass(a, b string) string {
+	strip := func(s string) string {
+		var out []string
+		for _, l := range strings.Split(s, "\n") {
+			if !strings.HasPrefix(l, "kinds=") {
+				out = append(out, l)
+			}
+		}
+		return strings.Join(out, "\n")
+	}
+	if strip(a) == strip(b) {
+		return "kinds-list-only"
+	}
+	return "other"
 }
 
 // c02SchedClass classifies a schedule-dependent difference: "shared-callee-defect-reporter" when
